@@ -63,6 +63,17 @@ def main():
             p["shared_files"] = (k % 2 == 0)
             # a controller in a file outside the globs (same package as the package-local types) in a third of the projects
             p["ghost_controller"] = (k % 3 == 1)
+            # enum constants that share a value; methods that carry only one of @Route / @Method (not endpoints)
+            p["dup_enum_values"] = (k % 3 == 2)
+            p["half_annotated"] = (k % 2 == 1)
+            if p["dup_enum_values"]:
+                for c in p["controllers"]:
+                    for m in c["methods"][:1]:
+                        if m["verb"] == "GET" or True:
+                            m["params"].append({"name": "dupcol", "ctx": False, "loc": "query", "alias": None, "type": "Color",
+                                                "pointer": False, "validator": None, "slice": False})
+                            m["params"].append({"name": "duptone", "ctx": False, "loc": "header", "alias": None, "type": "Tone",
+                                                "pointer": False, "validator": None, "slice": False})
             if k % 4 == 3:
                 # a rejected project: analysis of it must be idempotent too (diagnostics stable)
                 c = rng.choice(p["controllers"])
